@@ -19,7 +19,8 @@ package main
 //        late    — all logging calls have returned, slow writer, the queue is occupied when the flush is requested;
 //        fullq   — the writer is blocked until the queue is full and senders block; then released, then flush;
 //        quiesce — no flush: everything logged is written by the background flusher;
-//        panic   — entries are logged, then the goroutine panics under tars.CheckPanic (flush, os.Exit).
+//        panic   — entries are logged, then the goroutine panics under tars.CheckPanic (flush, os.Exit);
+//        second  — flush, log again, flush again (FlushLogger is one-shot in the code: known finding).
 
 import (
 	"bufio"
@@ -49,6 +50,9 @@ const (
 	c20KFlushCall
 	c20KFlushRetDone
 	c20KFlushRetTimer
+	c20KFlush2Call     // a second FlushLogger call (mode second)
+	c20KFlush2RetDone
+	c20KFlush2RetTimer
 	c20BadG = 999999 // goroutine id of a Write whose buffer is not one whole expected entry
 )
 
@@ -318,19 +322,22 @@ func c20RunScenario(sc c20Scenario) c20ChildOut {
 			}
 		}
 	}
-	flush := func() {
+	flushK := func(base int) {
 		out.QLen = rogger.VerifQueueLen()
-		env.rec(flushSlot, c20KFlushCall, 0, 0, 0)
+		env.rec(flushSlot, base, 0, 0, 0)
 		t0 := time.Now()
 		rogger.FlushLogger()
 		done := rogger.VerifFlushDone()
-		out.FlushMs = float64(time.Since(t0)) / 1e6
+		if base == c20KFlushCall {
+			out.FlushMs = float64(time.Since(t0)) / 1e6
+		}
 		if done {
-			env.rec(flushSlot, c20KFlushRetDone, 0, 0, 0)
+			env.rec(flushSlot, base+1, 0, 0, 0)
 		} else {
-			env.rec(flushSlot, c20KFlushRetTimer, 0, 0, 0)
+			env.rec(flushSlot, base+2, 0, 0, 0)
 		}
 	}
+	flush := func() { flushK(c20KFlushCall) }
 	var wg sync.WaitGroup
 	switch sc.Mode {
 	case "forced":
@@ -406,6 +413,19 @@ func c20RunScenario(sc c20Scenario) c20ChildOut {
 		close(gate)
 		wg.Wait()
 		flush()
+	case "second":
+		for g := 0; g < sc.G; g++ {
+			wg.Add(1)
+			go logN(g, sc.N, true, &wg)
+		}
+		wg.Wait()
+		flush()
+		for g := 0; g < sc.G; g++ {
+			wg.Add(1)
+			go logN(g, sc.LastN, true, &wg)
+		}
+		wg.Wait()
+		flushK(c20KFlush2Call)
 	case "quiesce":
 		for g := 0; g < sc.G; g++ {
 			wg.Add(1)
@@ -497,7 +517,7 @@ func c20Monitor(evs [][4]int, flushMs, timeoutMs float64, smallBacklog bool) []F
 	ents := map[c20Key]*info{}
 	var retOrder []c20Key // returned entries in order of return
 	head := 0
-	flushCall, flushRet := -1, -1
+	flushCall, flushRet, flush2Call := -1, -1, -1
 	flushDone := false
 	for i, e := range evs {
 		k := c20Key{e[1], e[2]}
@@ -555,6 +575,22 @@ func c20Monitor(evs [][4]int, flushMs, timeoutMs float64, smallBacklog bool) []F
 		case c20KFlushRetDone, c20KFlushRetTimer:
 			flushRet = i
 			flushDone = e[0] == c20KFlushRetDone
+		case c20KFlush2Call:
+			flush2Call = i
+		case c20KFlush2RetDone:
+			n := 0
+			var first c20Key
+			for k, in := range ents {
+				if in.ret >= 0 && in.ret < flush2Call && in.write < 0 {
+					n++
+					if n == 1 || k.g < first.g || (k.g == first.g && k.n < first.n) {
+						first = k
+					}
+				}
+			}
+			if n > 0 {
+				add("C20/second-flush/entry-not-written", fmt.Sprintf("a second FlushLogger call returned on the (stale) acknowledgement of the first flush while %d entr(ies) logged between the two flushes were not handed to their writer; first: g=%d n=%d", n, first.g, first.n))
+			}
 		}
 	}
 	if flushRet >= 0 && flushDone {
@@ -814,16 +850,20 @@ func c20Gen(tier string, rng *rand.Rand) []c20Case {
 			sc.G = 1 + rng.Intn(6)
 			sc.N = 1 + rng.Intn(30)
 			sc.Delay = []int{0, 0, 50}[rng.Intn(3)]
+		case "second":
+			sc.G = 1 + rng.Intn(4)
+			sc.N = rng.Intn(10)
+			sc.LastN = 1 + rng.Intn(5)
 		}
 		return c20Case{Sc: sc, Expect: true}
 	}
-	counts := map[string]int{"forced": 200, "stress": 120, "late": 40, "fullq": 4, "quiesce": 12, "panic": 20}
+	counts := map[string]int{"forced": 200, "stress": 120, "late": 40, "fullq": 4, "quiesce": 12, "panic": 20, "second": 4}
 	if tier == "thorough" {
-		counts = map[string]int{"forced": 3000, "stress": 2000, "late": 600, "fullq": 30, "quiesce": 150, "panic": 300}
+		counts = map[string]int{"forced": 3000, "stress": 2000, "late": 600, "fullq": 30, "quiesce": 150, "panic": 300, "second": 20}
 	}
 	// the smallest forced case first: one goroutine, one entry inside the window
 	cs = append(cs, c20Case{Sc: c20Scenario{Mode: "forced", G: 1, N: 0, Last: 1, LastN: 1, W: 1, Procs: 2, Seed: 1}, Expect: true})
-	for _, m := range []string{"forced", "stress", "late", "fullq", "quiesce", "panic"} {
+	for _, m := range []string{"forced", "stress", "late", "fullq", "quiesce", "panic", "second"} {
 		for i := 0; i < counts[m]; i++ {
 			cs = append(cs, mk(m))
 		}
@@ -899,6 +939,9 @@ func c20Coq(c *c20Case) string {
 	}
 	var sb strings.Builder
 	for i, e := range c.Events {
+		if e[0] >= c20KFlush2Call { // the model has one FlushLogger call: the trace up to the second call is validated
+			break
+		}
 		if i > 0 {
 			sb.WriteString(";")
 		}
